@@ -404,3 +404,86 @@ fn c01_estimated_qlpc_consistent() {
     kani::cover!(order < lpc_order);
     kani::cover!(order == 4);
 }
+
+static mut EST_CALLS: usize = 0;
+
+fn contract_reset_fixed_lpc_errors(_errors: &mut FixedLpcErrors, _signal: &[i32]) {
+    // (the differencing itself: units c01_fixed_errors_* / c10_fixed_errors_dirty); the error
+    // vectors stay empty here, the downstream contracts do not look at them.
+}
+
+/// contract of `estimate_entropy` (no-panic: agent unit c07_estimate_entropy_*): some estimate.
+fn contract_estimate_entropy(_errors: &[i32], _warmup_len: usize, _partitions: usize) -> usize {
+    unsafe {
+        EST_CALLS += 1;
+    }
+    let v: usize = kani::any();
+    kani::assume(v < (1 << 30));
+    v
+}
+
+/// contract of `rice::find_partitioned_rice_parameter` (Verus prc_find): some parameter set.
+fn contract_find_prc(_signal: &[i32], _warmup_length: usize, _max_p: usize) -> rice::PrcParameter {
+    let bits: usize = kani::any();
+    kani::assume(bits < (1 << 30));
+    rice::PrcParameter::new(0, vec![0u8], bits)
+}
+
+fn contract_encode_residual_with_prc(
+    _config: &config::Prc,
+    errors: &[i32],
+    warmup_length: usize,
+    _prc_p: rice::PrcParameter,
+) -> Residual {
+    contract_encode_residual(_config, errors, warmup_length)
+}
+
+/// `fixed_lpc`: whichever order 0..=max_order is selected (by bit count or by entropy estimate),
+/// the FIXED subframe's warm-up is the first `order` samples and the residual was encoded with
+/// warm-up length `order` over the whole block; orders above `max_order` are never tried.
+fn c01_fixed_lpc_body(bitcount: bool) {
+    let mut cfg = config::SubFrameCoding::default();
+    let max_order: usize = kani::any();
+    kani::assume(max_order <= 4);
+    cfg.fixed.max_order = max_order;
+    cfg.fixed.order_sel = if bitcount {
+        config::OrderSel::BitCount
+    } else {
+        config::OrderSel::ApproxEnt { partitions: 2 }
+    };
+    let s: [i32; 8] = kani::any();
+    let baseline: usize = kani::any();
+    let r = fixed_lpc(&cfg, &s, 16, baseline);
+    let (warm_seen, len_seen) = unsafe { (RESIDUAL_WARMUP_SEEN, RESIDUAL_LEN_SEEN) };
+    match r {
+        Some(SubFrame::FixedLpc(f)) => {
+            assert!(f.order() <= max_order);
+            assert!(f.residual().warmup_length() == f.order());
+            assert!(warm_seen == f.order());
+            let mut i = 0;
+            while i < 4 {
+                if i < f.order() {
+                    assert!(f.warm_up()[i] == s[i]);
+                }
+                i += 1;
+            }
+            assert!(f.bits_per_sample() == 16);
+        }
+        Some(_) => assert!(false),
+        None => {}
+    }
+}
+
+//@ unit props=C01,C02,C07 tier=quick kind=bounded timeout=900 funcs="coding::fixed_lpc; coding::select_order_and_encode_residual" stubs="reset_fixed_lpc_errors -> buffers of the block length; estimate_entropy -> some estimate; rice::find_partitioned_rice_parameter -> some parameters; encode_residual[_with_prc_parameter] -> residual with the given warm-up over the whole block" bound="block 8"
+#[kani::proof]
+#[kani::unwind(34)]
+#[kani::stub(std::fmt::format, stub_format)]
+#[kani::stub(reset_fixed_lpc_errors, contract_reset_fixed_lpc_errors)]
+#[kani::stub(estimate_entropy, contract_estimate_entropy)]
+#[kani::stub(rice::find_partitioned_rice_parameter, contract_find_prc)]
+#[kani::stub(encode_residual, contract_encode_residual)]
+#[kani::stub(encode_residual_with_prc_parameter, contract_encode_residual_with_prc)]
+fn c01_fixed_lpc_consistent() {
+    c01_fixed_lpc_body(true);
+    c01_fixed_lpc_body(false);
+}
